@@ -373,6 +373,36 @@ theorem threshold_witness (h g : G1) (a : ℕ → F) (n L : ℕ) (Px : F[X]) (Py
     (fun j hj => by rw [hw j hj, hQ])
   rw [this, hQ]
 
+/-- **The signer accepts the well-formedness proof of an honestly built request**: with the ciphertext of `encrypt`, the
+completed commitment of `Blind` and the commitments and responses that `proveBlindingIsWellFormed` is proved to produce
+(d[i] = beta[i]*h + alpha[i]*u, f[i] = alpha[i]*g, s = gamma*g0 + sum beta[i]*gs[i], x[i] = alpha[i] + e*r[i],
+y[i] = beta[i] + e*m[i], z = gamma + e*rcm), the three families of equations that `BlindCorrectFormProof.Verify` is proved to
+accept (`wfOK`) hold, for EVERY challenge e. -/
+theorem request_proof_accepted (g g0 h u : G1) (gs : ℕ → G1) (ms rs αs βs : ℕ → F) (rcm γ e : F) (n : ℕ) :
+    (∀ i, (αs i + e * rs i) • u + (βs i + e * ms i) • h
+        = (βs i • h + αs i • u) + e • (ms i • h + rs i • u)) ∧
+    (∀ i, (αs i + e * rs i) • g = αs i • g + e • (rs i • g)) ∧
+    e • sumG gs ms (rcm • g0) n + sumG gs βs (γ • g0) n
+        = sumG gs (fun i => βs i + e * ms i) ((γ + e * rcm) • g0) n := by
+  refine ⟨fun i => ?_, fun i => ?_, ?_⟩
+  · simp only [add_smul, mul_smul, smul_add]
+    abel
+  · simp only [add_smul, mul_smul]
+  · rw [sumG_eq_sum, sumG_eq_sum, sumG_eq_sum]
+    have h1 : ∑ j ∈ range n, (βs j + e * ms j) • gs j
+        = ∑ j ∈ range n, βs j • gs j + e • ∑ j ∈ range n, ms j • gs j := by
+      rw [Finset.smul_sum, ← Finset.sum_add_distrib]
+      refine Finset.sum_congr rfl (fun j _ => ?_)
+      rw [add_smul, mul_smul]
+    rw [h1]
+    simp only [smul_add, add_smul, mul_smul]
+    abel
+
+/-- the completed commitment: (rcm*g0 + sum over the first n-1 components) + mPrime*gs[n-1] is the sum over all n components
+of the extended message (one unfolding of sumG) -/
+theorem completed_commitment (g0 : G1) (gs : ℕ → G1) (ms : ℕ → F) (rcm : F) (k : ℕ) :
+    sumG gs ms (rcm • g0) k + ms k • gs k = sumG gs ms (rcm • g0) (k + 1) := rfl
+
 end BlindSigning
 
 end TSS
@@ -387,3 +417,4 @@ end TSS
 #print axioms TSS.pok_pairing_holds
 #print axioms TSS.schnorr_part_accepted
 #print axioms TSS.threshold_witness
+#print axioms TSS.request_proof_accepted
